@@ -261,6 +261,65 @@ func genC06(g *Gen) {
 		}
 		g.end()
 	}
+	g.filteredApplySelections()
+}
+
+// filteredApplySelections: FilteredApply under clauses that select no row, every row, the first, the last and
+// alternate rows, with an instruction of every function signature - including the built-in ToUpper, whose
+// string form is specified under a filter too - to a new destination and onto its own source, on a fresh
+// frame, a sorted one and a slice; frames of 0..5 rows.
+func (g *Gen) filteredApplySelections() {
+	in := func(k, sym, dst, s1, s2 string) Instr {
+		i := Instr{Fn: FnRef{K: k, Sym: sym}, Dst: toBS(dst), Src1: toBS(s1)}
+		if s2 != "" {
+			i.Src2 = toBS(s2)
+		}
+		return i
+	}
+	for n := 0; n <= 5; n++ {
+		iv, sv, ev := make([]int64, n), make([]*BS, n), make([]*BS, n)
+		for i := 0; i < n; i++ {
+			iv[i], sv[i], ev[i] = int64(i), bsp([]string{"a", "Bc", "é", "", "zz"}[i%5]), bsp([]string{"lo", "hi"}[i%2])
+		}
+		if n > 2 {
+			sv[2] = nil
+		}
+		sel := []Clause{
+			{K: "leaf", Col: toBS("I"), CmpK: "str", Cmp: "<", Arg: &Val{T: "int", I: 0}},
+			{K: "leaf", Col: toBS("I"), CmpK: "str", Cmp: ">=", Arg: &Val{T: "int", I: 0}},
+			{K: "leaf", Col: toBS("I"), CmpK: "str", Cmp: "=", Arg: &Val{T: "int", I: 0}},
+			{K: "leaf", Col: toBS("I"), CmpK: "str", Cmp: "=", Arg: &Val{T: "int", I: int64(n - 1)}},
+			{K: "leaf", Col: toBS("I"), CmpK: "str", Cmp: "any_bits", Arg: &Val{T: "int", I: 1}},
+			{K: "leaf", Col: toBS("S"), CmpK: "str", Cmp: "isnull"},
+		}
+		for variant := 0; variant < 3; variant++ {
+			g.begin("filtered apply selections")
+			f := g.do(Step{Op: "New", Recv: -1, HasOrder: true, ColOrder: bsList([]string{"I", "S", "E"}), HasEnums: true,
+				Enums: []EnumDecl{{Name: toBS("E"), Vals: bsList([]string{"lo", "hi"})}},
+				Data: []ColData{{Name: toBS("I"), Kind: "int", Ints: iv}, {Name: toBS("S"), Kind: "string", Strs: sv}, {Name: toBS("E"), Kind: "string", Strs: ev}}})
+			switch variant {
+			case 1:
+				f = g.do(Step{Op: "Sort", Recv: f, Orders: []Order{{Col: toBS("I"), Rev: true}}})
+			case 2:
+				if n < 2 {
+					g.end()
+					continue
+				}
+				f = g.do(Step{Op: "Slice", Recv: f, A: 1, B: n})
+			}
+			for ci := range sel {
+				cl := sel[ci]
+				for _, ins := range [][]Instr{
+					{in("builtin", "ToUpper", "U", "S", "")}, {in("builtin", "ToUpper", "S", "S", "")}, {in("builtin", "ToUpper", "U", "E", "")},
+					{in("fn1", "bangS", "U", "S", ""), in("builtin", "ToUpper", "V", "U", "")},
+					{in("fn1", "negI", "N", "I", ""), in("fn2", "MinusI", "I", "I", "I"), in("fn2", "ConcatS", "S", "S", "S"), in("fn1", "isNilS", "B", "S", "")},
+				} {
+					g.do(Step{Op: "FilteredApply", Recv: f, Clause: &cl, Instrs: ins})
+				}
+			}
+			g.end()
+		}
+	}
 }
 
 // ---------------------------------------------------------------- Eval
@@ -431,6 +490,39 @@ func genC07(g *Gen) {
 			g.siblingAdds(f)
 		}
 		g.end()
+	}
+	g.evalNamePairs()
+}
+
+// evalNamePairs: the product destination x source over existing and missing column names (equal or not),
+// for a bare column reference, the same wrapped in Val, a one- and a two-argument call on it, and Copy -
+// on a fresh frame and on a derived one.
+func (g *Gen) evalNamePairs() {
+	names := []string{"A", "S", "Q", "R"}
+	for _, derived := range []bool{false, true} {
+		for _, dst := range names {
+			g.begin("eval name pairs")
+			f := g.do(Step{Op: "New", Recv: -1, HasOrder: true, ColOrder: bsList([]string{"A", "S"}),
+				Data: []ColData{{Name: toBS("A"), Kind: "int", Ints: []int64{3, -1, 2}}, {Name: toBS("S"), Kind: "string", Strs: []*BS{bsp("x"), nil, bsp("z")}}}})
+			if derived {
+				f = g.do(Step{Op: "Sort", Recv: f, Orders: []Order{{Col: toBS("A")}}})
+			}
+			for _, src := range names {
+				c := Expr{K: "col", Name: toBS(src)}
+				g.do(Step{Op: "Eval", Recv: f, Dst: toBS(dst), Expr: &c})
+				v := Expr{K: "val", Args: []Expr{c}}
+				g.do(Step{Op: "Eval", Recv: f, Dst: toBS(dst), Expr: &v})
+				one := Expr{K: "call", Op: map[string]string{"S": "len"}[src], Args: []Expr{c}}
+				if one.Op == "" {
+					one.Op = "abs"
+				}
+				g.do(Step{Op: "Eval", Recv: f, Dst: toBS(dst), Expr: &one})
+				two := Expr{K: "call", Op: "+", Args: []Expr{c, c}}
+				g.do(Step{Op: "Eval", Recv: f, Dst: toBS(dst), Expr: &two})
+				g.do(Step{Op: "Copy", Recv: f, Dst: toBS(dst), Src: toBS(src)})
+			}
+			g.end()
+		}
 	}
 }
 
